@@ -29,11 +29,11 @@ def run(ctx):
         prog, info = load_program(cfg, "e57")
         ctx.configs[cfg] = info
         ctx.cfg = cfg
-        simple_rules.formulas(ctx, prog, "R1")
-        simple_rules.pop_point_tables(ctx, prog, "R2")
-        simple_rules.indices_wiring(ctx, prog, "R3")
-        simple_rules.option_stage(ctx, prog, "R4")
-        simple_rules.conversion_tables(ctx, prog, "R5")
-        norm_rules.selection_order(ctx, prog, "R4")
-        pcw_rules.raw_reader_count(ctx, prog, "R6", path=simple_rules.IT, adt="pc_reader_simple::PointCloudReaderSimple", records=("pc", "records"))
+        ctx.call(simple_rules.formulas, prog, "R1")
+        ctx.call(simple_rules.pop_point_tables, prog, "R2")
+        ctx.call(simple_rules.indices_wiring, prog, "R3")
+        ctx.call(simple_rules.option_stage, prog, "R4")
+        ctx.call(simple_rules.conversion_tables, prog, "R5")
+        ctx.call(norm_rules.selection_order, prog, "R4")
+        ctx.call(pcw_rules.raw_reader_count, prog, "R6", path=simple_rules.IT, adt="pc_reader_simple::PointCloudReaderSimple", records=("pc", "records"))
     ctx.cfg = None
